@@ -346,6 +346,14 @@ def cycle {α} (c : LoopCtx) (values : List α) : Option α :=
   if values.isEmpty then none else values[c.index % values.length]?
 end LoopCtx
 
+/-- `LoopContext.parent` as `LoopStack._push` sets it (`new.parent = self.stack[-1]` only `if self.stack`), for a
+    loop stack with the innermost context first: the context below – `none` (Python `None`) for the outermost
+    loop -/
+def parentOfStack {α : Type} (stack : List α) : Option α := stack.tail.head?
+
+/-- the chain `loop.parent, loop.parent.parent, …` up to `None` -/
+def parentChain {α : Type} (stack : List α) : List α := stack.tail
+
 /-! ## `write_variable_declares`: `loop` -/
 
 def declLine (name : Str) : Str :=
